@@ -659,3 +659,242 @@ Proof.
   - exists 2. split; vm_compute; reflexivity.
   - vm_compute. discriminate.
 Qed.
+
+(* ------------------------------------------------------------------ primitives are blocks of chunks *)
+(* Part B: every primitive of the document refers to one contiguous block of chunks that is exactly
+   [mesh_chunks m] for the mesh [m] of one of the scene's models — also when the block was written for an
+   earlier model with the same mesh pointer. *)
+Definition entry (cks : list chunk) (m : pmesh) (ai : list (string * N) * N) : Prop :=
+  exists pre post, cks = pre ++ mesh_chunks m ++ post /\
+                   ai = (mesh_attrs (len pre) m, mesh_idx_pos (len pre) m).
+Lemma entry_ext cks ext m ai : entry cks m ai -> entry (cks ++ ext) m ai.
+Proof.
+  intros (pre & post & -> & ->). exists pre, (post ++ ext). split; [|reflexivity].
+  rewrite <- !app_assoc. reflexivity.
+Qed.
+Lemma lookupN_In {B} k (l : list (N * B)) v : lookupN k l = Some v -> In (k, v) l.
+Proof.
+  induction l as [|[k' v'] l IH]; cbn [lookupN]; [discriminate|].
+  destruct (k =? k') eqn:E; [|right; auto]. intros H. apply some_inj in H. subst. left. f_equal. lia.
+Qed.
+
+Section Prims.
+Variable M : pmesh -> Prop.
+Definition prim_entry (cks : list chunk) (gm : gmesh) : Prop :=
+  exists p m ii, gm_prims gm = [p] /\ M m /\ gp_idx p = Some ii /\ entry cks m (gp_attrs p, ii).
+Definition sinv (s : state) : Prop :=
+  canon (st_b s) /\
+  (forall ptr ai, In (ptr, ai) (st_wr_tab s) -> exists m, M m /\ entry (b_chunks (st_b s)) m ai) /\
+  (forall gm, In gm (st_meshes s) -> prim_entry (b_chunks (st_b s)) gm).
+
+Lemma sinv_frame s s' ext : sinv s -> st_b s' = of_chunks (b_chunks (st_b s) ++ ext) ->
+  st_wr_tab s' = st_wr_tab s -> st_meshes s' = st_meshes s -> sinv s'.
+Proof.
+  intros (Hc & Hw & Hm) Eb Ew Em. unfold sinv. rewrite Eb, Ew, Em. cbn [b_chunks of_chunks].
+  split; [apply of_chunks_canon|]. split.
+  - intros ptr ai Hin. destruct (Hw ptr ai Hin) as (m & HM & He). exists m. split; [exact HM|]. apply entry_ext, He.
+  - intros gm Hin. destruct (Hm gm Hin) as (p & m & ii & E1 & HM & E2 & He).
+    exists p, m, ii. repeat split; auto. apply entry_ext, He.
+Qed.
+Lemma sinv_same s s' : sinv s -> st_b s' = st_b s -> st_wr_tab s' = st_wr_tab s -> st_meshes s' = st_meshes s -> sinv s'.
+Proof.
+  intros H Eb Ew Em. apply (sinv_frame s s' []); auto. rewrite app_nil_r, Eb. apply canon_of_chunks, H.
+Qed.
+
+Lemma add_material_frame m s :
+  st_b (snd (add_material m s)) = st_b s /\ st_wr_tab (snd (add_material m s)) = st_wr_tab s /\
+  st_meshes (snd (add_material m s)) = st_meshes s.
+Proof.
+  unfold add_material. destruct (find_mat m (st_mat_tab s)); [repeat split|].
+  destruct (build_material m (st_x s)). repeat split.
+Qed.
+Lemma resolve_material_inv mo s : sinv s -> sinv (snd (resolve_material mo s)).
+Proof.
+  intros H. unfold resolve_material. destruct (mo_mat mo) as [pm|]; [|exact H].
+  pose proof (add_material_frame pm s) as (E1 & E2 & E3). destruct (add_material pm s) as [i s1]. cbn [snd] in *.
+  apply (sinv_same s); assumption.
+Qed.
+
+Lemma place_mesh_inv mo mati s : M (mo_mesh mo) -> sinv s -> sinv (snd (place_mesh mo mati s)).
+Proof.
+  intros HM Hs. unfold place_mesh. destruct (find_mesh _ _); [exact Hs|].
+  destruct Hs as (Hc & Hw & Hm). unfold mesh_data.
+  destruct (lookupN (me_ptr (mo_mesh mo)) (st_wr_tab s)) as [ai|] eqn:El.
+  - (* geometry already written: same accessors *)
+    cbn [snd]. unfold sinv. cbn [st_b st_wr_tab st_meshes]. split; [exact Hc|]. split; [exact Hw|].
+    intros gm Hin. apply in_app_or in Hin. destruct Hin as [Hin|[<-|[]]]; [apply Hm, Hin|].
+    apply lookupN_In in El. destruct (Hw _ _ El) as (m & HMm & He).
+    eexists _, m, (snd ai). cbn [gm_prims gp_idx gp_attrs]. repeat split; auto.
+    destruct ai; exact He.
+  - rewrite (canon_of_chunks _ Hc) at 1. rewrite write_mesh_data_of. cbn [snd fst].
+    unfold sinv. cbn [st_b st_wr_tab st_meshes b_chunks of_chunks].
+    set (cks := b_chunks (st_b s)) in *.
+    assert (He : entry (cks ++ mesh_chunks (mo_mesh mo)) (mo_mesh mo)
+                   (mesh_attrs (len cks) (mo_mesh mo), mesh_idx_pos (len cks) (mo_mesh mo))).
+    { exists cks, []. rewrite app_nil_r. split; reflexivity. }
+    split; [apply of_chunks_canon|]. split.
+    + intros ptr ai [E|Hin].
+      * inversion E; subst. exists (mo_mesh mo). split; [exact HM|exact He].
+      * destruct (Hw ptr ai Hin) as (m & HMm & Hem). exists m. split; [exact HMm|]. apply entry_ext, Hem.
+    + intros gm Hin. apply in_app_or in Hin. destruct Hin as [Hin|[<-|[]]].
+      * destruct (Hm gm Hin) as (p & m & ii & E1 & HMm & E2 & Hem).
+        exists p, m, ii. repeat split; auto. apply entry_ext, Hem.
+      * eexists _, (mo_mesh mo), _. cbn [gm_prims gp_idx gp_attrs]. repeat split; auto.
+Qed.
+
+Lemma add_mesh_inv mo s : M (mo_mesh mo) -> sinv s -> sinv (snd (add_mesh mo s)).
+Proof.
+  intros HM Hs. unfold add_mesh. destruct (prim_count (mo_mesh mo) =? 0); [exact Hs|].
+  pose proof (resolve_material_inv mo s Hs) as H1. destruct (resolve_material mo s) as [mati s1]. cbn [snd] in H1.
+  apply place_mesh_inv; assumption.
+Qed.
+
+Lemma add_node_inv mo mi s : sinv s -> sinv (add_node mo mi s).
+Proof.
+  intros Hs. pose proof Hs as (Hc & _). unfold add_node, node_inst. destruct (mo_inst mo) as [|i0 ins].
+  - apply (sinv_same s); auto.
+  - rewrite (canon_of_chunks _ Hc). rewrite write_instances_of.
+    eapply (sinv_frame s _ (inst_chunks (i0 :: ins))); [exact Hs|reflexivity|reflexivity|reflexivity].
+Qed.
+
+Lemma add_model_inv s mo : M (mo_mesh mo) -> sinv s -> sinv (add_model s mo).
+Proof.
+  intros HM Hs. unfold add_model. pose proof (add_mesh_inv mo s HM Hs) as H1.
+  destruct (add_mesh mo s) as [[mi|] s1]; cbn [snd] in H1; [|exact H1]. apply add_node_inv, H1.
+Qed.
+Lemma fold_models_inv ms s : Forall (fun mo => M (mo_mesh mo)) ms -> sinv s -> sinv (fold_left add_model ms s).
+Proof.
+  revert s. induction ms as [|mo r IH]; intros s HM Hs; cbn [fold_left]; [exact Hs|].
+  inversion HM; subst. apply IH; [assumption|]. apply add_model_inv; assumption.
+Qed.
+Lemma fold_lights_inv ls s : sinv s -> sinv (fold_left add_light ls s).
+Proof.
+  revert s. induction ls as [|l r IH]; intros s Hs; cbn [fold_left]; [exact Hs|].
+  apply IH. apply (sinv_same s); auto.
+Qed.
+End Prims.
+
+Lemma sinv_init M : sinv M init.
+Proof. split; [apply canon_init|]. split; intros ? ; cbn; tauto. Qed.
+
+Theorem run_sinv sc : sinv (fun m => exists mo, In mo (sc_models sc) /\ m = mo_mesh mo) (run sc).
+Proof.
+  unfold run, add_scene. apply fold_lights_inv. apply fold_models_inv; [|apply sinv_init].
+  apply Forall_forall. intros mo Hin. exists mo. split; [exact Hin|reflexivity].
+Qed.
+
+(* ---- what an [entry] says about single accessors *)
+Lemma amap_set_In key v l x : In x (amap_set key v l) -> x = (key, v) \/ In x l.
+Proof.
+  induction l as [|[k' v'] l IH]; cbn [amap_set].
+  - intros [<-|[]]. left. reflexivity.
+  - destruct (String.eqb key k').
+    + intros [<-|H]; [left; reflexivity|right; right; exact H].
+    + intros [<-|H]; [right; left; reflexivity|]. destruct (IH H); [left|right; right]; assumption.
+Qed.
+Lemma attrs_from_In i attrs a name ai : In (name, ai) (attrs_from i attrs a) ->
+  In (name, ai) a \/ exists j nv, nth_error attrs j = Some nv /\ ai = i + N.of_nat j /\ name = gltf_name (fst nv).
+Proof.
+  revert i a. induction attrs as [|nv r IH]; intros i a; cbn [attrs_from]; [left; assumption|].
+  intros H. destruct (IH _ _ H) as [H1|(j & nv' & E1 & E2 & E3)].
+  - apply amap_set_In in H1. destruct H1 as [E|H1]; [|left; exact H1].
+    right. exists O, nv. inversion E; subst. repeat split. lia.
+  - right. exists (S j), nv'. repeat split; auto. lia.
+Qed.
+
+Lemma nth_in_block {A B} (f : A -> B) (a : list B) l b j x : nth_error l j = Some x ->
+  nth_error (a ++ map f l ++ b) (length a + j) = Some (f x).
+Proof.
+  intros H. rewrite nth_error_app2 by lia. replace (length a + j - length a)%nat with j by lia.
+  rewrite nth_error_app1 by (rewrite map_length; apply nth_error_Some; congruence).
+  apply map_nth_error, H.
+Qed.
+
+Definition attr_of (m : pmesh) (k : N) (nv : string * vdata) : Prop :=
+  k = 4 /\ In nv (me_v4 m) \/ k = 3 /\ In nv (me_v3 m) \/ k = 2 /\ In nv (me_v2 m).
+
+Lemma entry_attr cks m attrs ii name ai : entry cks m (attrs, ii) -> In (name, ai) attrs ->
+  exists k nv, attr_of m k nv /\ name = gltf_name (fst nv) /\ nth_error cks (N.to_nat ai) = Some (attr_chunk k nv).
+Proof.
+  intros (pre & post & -> & E) Hin. inversion E; subst attrs ii. clear E. unfold mesh_attrs in Hin.
+  unfold mesh_chunks. unfold len in *. rewrite <- !app_assoc.
+  apply attrs_from_In in Hin. destruct Hin as [Hin|(j & nv & E1 & -> & ->)].
+  - apply attrs_from_In in Hin. destruct Hin as [Hin|(j & nv & E1 & -> & ->)].
+    + apply attrs_from_In in Hin. destruct Hin as [[]|(j & nv & E1 & -> & ->)].
+      exists 4, nv. split; [left; split; [reflexivity|eapply nth_error_In, E1]|]. split; [reflexivity|].
+      replace (N.to_nat (N.of_nat (length pre) + N.of_nat j)) with (length pre + j)%nat by lia.
+      apply (nth_in_block (attr_chunk 4)), E1.
+    + exists 3, nv. split; [right; left; split; [reflexivity|eapply nth_error_In, E1]|]. split; [reflexivity|].
+      replace (N.to_nat (N.of_nat (length pre) + N.of_nat (length (me_v4 m)) + N.of_nat j))
+        with (length (pre ++ map (attr_chunk 4) (me_v4 m)) + j)%nat by (rewrite app_length, map_length; lia).
+      rewrite (app_assoc pre).
+      apply (nth_in_block (attr_chunk 3)), E1.
+  - exists 2, nv. split; [right; right; split; [reflexivity|eapply nth_error_In, E1]|]. split; [reflexivity|].
+    replace (N.to_nat (N.of_nat (length pre) + N.of_nat (length (me_v4 m)) + N.of_nat (length (me_v3 m)) + N.of_nat j))
+      with (length ((pre ++ map (attr_chunk 4) (me_v4 m)) ++ map (attr_chunk 3) (me_v3 m)) + j)%nat
+      by (rewrite !app_length, !map_length; lia).
+    rewrite (app_assoc pre), (app_assoc (pre ++ _)).
+    apply (nth_in_block (attr_chunk 2)), E1.
+Qed.
+
+Lemma entry_idx cks m attrs ii : entry cks m (attrs, ii) ->
+  nth_error cks (N.to_nat ii) = Some (idx_chunk (me_idx m) (attr_len m)).
+Proof.
+  intros (pre & post & -> & E). inversion E; subst attrs ii. clear E. unfold mesh_idx_pos, mesh_chunks, len.
+  replace (N.to_nat (N.of_nat (length pre) + N.of_nat (length (me_v4 m)) + N.of_nat (length (me_v3 m)) + N.of_nat (length (me_v2 m))))
+    with (length (pre ++ map (attr_chunk 4) (me_v4 m) ++ map (attr_chunk 3) (me_v3 m) ++ map (attr_chunk 2) (me_v2 m)) + 0)%nat
+    by (rewrite !app_length, !map_length; lia).
+  rewrite <- !app_assoc.
+  replace (pre ++ map (attr_chunk 4) (me_v4 m) ++ map (attr_chunk 3) (me_v3 m) ++ map (attr_chunk 2) (me_v2 m)
+           ++ [idx_chunk (me_idx m) (attr_len m)] ++ post)
+    with ((pre ++ map (attr_chunk 4) (me_v4 m) ++ map (attr_chunk 3) (me_v3 m) ++ map (attr_chunk 2) (me_v2 m))
+          ++ map (fun x => x) [idx_chunk (me_idx m) (attr_len m)] ++ post)
+    by (rewrite map_id, <- !app_assoc; reflexivity).
+  apply (nth_in_block (fun x => x)). reflexivity.
+Qed.
+
+Lemma expand_plain (l : list elem) : expand (plain l) = l.
+Proof. unfold expand, plain. induction l; cbn [map flat_map fst snd]; [reflexivity|]. rewrite IHl. reflexivity. Qed.
+
+(* The scene-level statement: every mesh of the document has exactly one primitive; it belongs to the
+   mesh [m] of one of the scene's models; its index accessor has the width the attribute length calls for,
+   as many elements as [m] has indices, and decodes to exactly those indices; every attribute it lists is
+   an attribute of [m] under its glTF name, with [attr_len m] elements of the right type, and decodes to
+   exactly the attribute's float32 / byte image. *)
+Theorem prims_carry sc : scene_ok sc ->
+  let st := run sc in let s := to_summary st in
+  forall gm, In gm (s_meshes s) ->
+  exists p mo ii, In mo (sc_models sc) /\ gm_prims gm = [p] /\ gp_idx p = Some ii /\
+    let m := mo_mesh mo in
+    (exists a, nth_error (s_accs s) (N.to_nat ii) = Some a /\
+               a_comp a = (if attr_len m <=? 65535 then 5123 else 5125) /\ a_k a = 1 /\ a_count a = len (me_idx m) /\
+               decode_acc (s_views s) (buf st) a = Some (map (fun i => [i]) (me_idx m))) /\
+    forall name ai, In (name, ai) (gp_attrs p) ->
+      exists k nv a, attr_of m k nv /\ name = gltf_name (fst nv) /\
+        nth_error (s_accs s) (N.to_nat ai) = Some a /\
+        a_comp a = comp_code (attr_comp (fst nv)) /\ a_k a = k /\ a_count a = attr_len m /\
+        decode_acc (s_views s) (buf st) a = Some (expand (snd nv)).
+Proof.
+  intros Hok. cbv zeta. destruct (run_chunks_ok sc Hok) as (cks & Hk & E).
+  pose proof (run_sinv sc) as (_ & _ & Hm).
+  unfold to_summary, buf, buf_b. cbn [s_meshes s_accs s_views]. rewrite E in *. cbn [b_chunks b_accs b_views of_chunks] in *.
+  intros gm Hin. destruct (Hm gm Hin) as (p & m & ii & E1 & (mo & Hmo & ->) & E2 & He).
+  exists p, mo, ii. split; [exact Hmo|]. split; [exact E1|]. split; [exact E2|].
+  assert (Hmok : mesh_ok (mo_mesh mo)).
+  { unfold scene_ok in Hok. rewrite Forall_forall in Hok. apply Hok, Hmo. }
+  split.
+  - pose proof (entry_idx _ _ _ _ He) as Hn. destruct (acc_view_of cks _ _ Hn) as (Ha & _).
+    eexists. split; [exact Ha|]. rewrite N2Nat.id.
+    destruct Hmok as (_ & _ & _ & Hi & Hl). destruct (index_values_kept _ _ Hi Hl) as (Ed & _ & _).
+    split; [apply index_width_rule|]. split; [reflexivity|]. split.
+    + cbn [a_count acc_of]. unfold ck_count. rewrite Ed, vcount_plain, len_map. reflexivity.
+    + rewrite <- (N2Nat.id ii). rewrite (decode_canonical cks _ _ Hk Hn), Ed, expand_plain. reflexivity.
+  - intros name ai Hai. destruct (entry_attr _ _ _ _ _ _ He Hai) as (k & nv & Hof & -> & Hn).
+    destruct (acc_view_of cks _ _ Hn) as (Ha & _).
+    exists k, nv. eexists. split; [exact Hof|]. split; [reflexivity|]. split; [exact Ha|].
+    split; [reflexivity|]. split; [reflexivity|]. split.
+    + cbn [a_count acc_of]. unfold ck_count, attr_chunk, vec_chunk. cbn [ck_data].
+      destruct Hmok as (H4 & H3 & H2 & _). unfold attrs_ok in *. rewrite Forall_forall in H4, H3, H2.
+      destruct Hof as [(_ & Hi)|[(_ & Hi)|(_ & Hi)]]; [apply H4 in Hi|apply H3 in Hi|apply H2 in Hi]; tauto.
+    + rewrite (decode_canonical cks _ _ Hk Hn). reflexivity.
+Qed.
